@@ -34,7 +34,7 @@ TEXT = {
     'C03': _t('Verus proves for ANY number of links, both modes and every configuration: the stall gate never excludes the last usable link (usable = connected, registered, not timed out); the classic selector returns a link whenever a connected eligible link exists; '
               'the enhanced selector returns a link whenever a connected eligible link exists even with the in-flight cap, weak and loss gates engaged (the cap hard-skip applies only while an unconstrained connected link exists); '
               'and select_connection_idx composes them: a usable uplink exists => Some. The one float fact needed (the score of a connected candidate exceeds the -1.0 start score) is a lemma assumed in Verus and proved bit-precisely by Kani, '
-              'together with the ranges of the quality multiplier and the soft-cap factor on the real functions.',
+              'together with the ranges of the quality multiplier and the soft-cap factor on the real functions. Panic freedom of the whole selection path is claimed and proved (e.g. Ord::clamp with min > max in the effective stall window would be a violation).',
               COMMON_NOTE + ' A genuine defect found by this check (a link that lost its registration counted as the healthy alternative -> blackout) was repaired in /repo (fix: commit 6932b94).',
               'deductive verification (Verus) with existential postconditions + Kani float-lemma table', 'DESIGN.md 8 C03'),
     'C04': _t('Verus proves for any number of links, both modes, every configuration and packet kind: both selectors (incl. the hysteresis return) and select_connection_idx return only an uplink that is schedulable, '
@@ -44,7 +44,7 @@ TEXT = {
               'deductive verification (Verus): eligibility postconditions on the schedulers + tagged assertion at the routing call site', 'DESIGN.md 8 C04'),
     'C05': _t('Verus proves: the sequence tracker remembers a carrier exactly while the slot holds the same sequence number and is not older than 5000 ms, insert overwrites exactly one slot, remove_connection purges exactly that link; '
               'attribute_nak (any number of links, distinct ids) charges at most one link, only a holder, exactly -100 floored at 1000 / one loss count / one in-flight slot, changes nothing for an unknown NAK, and while the tracker '
-              'remembers a carrier that is present no other link can be charged (no fall-through); the tracker records the carrier of the unique copy at queue time and probes never touch it.',
+              'remembers a carrier that is present no other link can be charged (no fall-through); the tracker records the carrier of the unique copy at queue time and probes never touch it. Every iteration of the NAK loop either runs the one-charge step (attribute_nak) or leaves every link unchanged.',
               COMMON_NOTE, 'deductive verification (Verus) of extracted real functions; bit-vector lemma for the ring index', 'DESIGN.md 8 C05'),
     'C06': _t('Verus proves for every window value and every in-flight count in 0..i32::MAX: range [1000,60000] preserved by every function taking the window, start/reset value 20000, '
               'NAK = exactly -100 floored at 1000 (never increases), earned SRTLA ACK = +29 capped only when in-flight*1000 (saturating) exceeds the window (never decreases), global +1 capped, '
@@ -58,7 +58,7 @@ TEXT = {
               'deductive verification (Verus) of the extracted state machine against transition contracts', 'DESIGN.md 8 C07'),
     'C08': _t('Verus proves: the timed-out predicate is a function of (connected, last_received, timeout, establishment, grace) only - no stall/weak/loss field is an input; back-off delay in [5 s,120 s] '
               'for every failure count; an attempt is allowed only >= 1 s (initial) / >= 5 s (later) after the previous one and always once 120 s have passed (no terminal state); '
-              'every reset returns the link to window 20000, zero in-flight, Registering; REG3 clean-up enters Warming with zero in-flight. REG3 restarts the back-off but never the 5 s retry timer; a soft reset (mark_for_recovery) cancels an outstanding RTT probe and clears the keepalive stamps.',
+              'every reset returns the link to window 20000, zero in-flight, Registering; REG3 clean-up enters Warming with zero in-flight. REG3 restarts the back-off but never the 5 s retry timer; a soft reset (mark_for_recovery) cancels an outstanding RTT probe and clears the keepalive stamps. An empty reader packet or a packet of an unknown uplink changes nothing (unit drain); mark_for_recovery keeps the retry clock, the back-off and the establishment stamp.',
               COMMON_NOTE + ' Out of reach: "connected again within 30 s" and the housekeeping loop itself (liveness over the network).',
               'deductive verification (Verus) of extracted real functions', 'DESIGN.md 8 C08'),
     'C09': _t('Verus proves for every byte string (any length) and every link state: process_uplink_packet returns Ok, forwards exactly the datagram itself (unchanged) iff it has >= 2 bytes and is not REG_NGP/REG2/REG3/REG_ERR/SRTLA-ACK/keepalive, '
@@ -73,7 +73,7 @@ TEXT = {
               COMMON_NOTE + ' A genuine defect found by this check (quality override applied in classic mode) was repaired in /repo (fix: commit 49c1b48). "No time-based recovery in classic" is a syntactic audit of the single call site.',
               'deductive verification (Verus): argmax-first postcondition with loop invariant, exact-delta window contracts, tagged routing assertion', 'DESIGN.md 8 C10'),
     'C11': _t('Verus proves on the real enhanced selector (any number of links): the result is always a scored candidate (eligible, connected, not over its cap while an unconstrained link exists); the score is exactly base x phase weight (0.8 warming / 1.0) x quality x soft cap x gate (0.02 for weak or loss-degraded while an unconstrained link exists, else 1.0); '
-              'the previous link is left only if it was skipped or the winner is not below 1.10 x its score. Kani proves on the real functions, for every link state: quality multiplier in [0.35, 1.1x1.03], soft-cap factor in [0.1, 1], in-flight cap >= 1 and None iff no target.',
+              'the previous link is left only if it was skipped or the winner is not below 1.10 x its score. Kani proves on the real functions, for every link state: quality multiplier in [0.35, 1.1x1.03], soft-cap factor in [0.1, 1], in-flight cap >= 1 and None iff no target. The in-flight cap uses the documented minimum RTT; a reload forgets the hysteresis anchor exactly when a link was removed (unit conns).',
               COMMON_NOTE + ' Not covered: "re-running selection on an unchanged state returns the same uplink" is only partially covered (the per-link updates are exact functions of the state; no two-run proof).',
               'deductive verification (Verus) with tagged assertions inside the loop + Kani complete harnesses for the float factors', 'DESIGN.md 8 C11'),
     'C12': _t('Verus proves for any number of links, both modes, every configuration: select_connection_idx and everything it calls (stall gate, pull and latch updates, quality cache refresh, both selectors) '
@@ -82,7 +82,7 @@ TEXT = {
               COMMON_NOTE, 'deductive verification (Verus): generated field-wise frame predicates carried through every callee contract', 'DESIGN.md 8 C12'),
     'C13': _t('Verus proves the one-step contracts of the stall latch and the silence pull for all states and clock values: engages only with stale proof and (backlog or held pull), never without proof on record; '
               'releases only after proof stayed fresh and the run lasted >= 2x the effective window; stale proof resets the run; the run start is only ever 0 / unchanged / now; pull releases only when heard again or disconnected; '
-              'effective window = clamp(4*sRTT,1000,ceiling) with ceiling winning below the floor; rising edges counted exactly.',
+              'effective window = clamp(4*sRTT,1000,ceiling) with ceiling winning below the floor; rising edges counted exactly. A newly created link starts without delivery proof or stall state.',
               COMMON_NOTE + ' Float->int conversion of the smoothed RTT is uninterpreted in Verus; Kani harness covers the formula bit-precisely when built.',
               'deductive verification (Verus) of extracted real functions against transition contracts', 'DESIGN.md 8 C13'),
     'C14': _t('Verus proves: a keepalive is due exactly when the link is connected and none was sent or the last one is >= 1000 ms old; keepalive_packet stamps the send time, carries it as the timestamp, its telemetry equals the link state, and arms an RTT probe only when none is outstanding; '
@@ -95,7 +95,7 @@ TEXT = {
               'On the real handle_method / parse_mode (string match turned into an if-chain over a trusted str_eq, json! into a builder chain keeping keys and value expressions): unknown and subscription methods get -32601 and change nothing; missing or ill-typed parameters and unknown mode names get -32602 and change nothing; '
               'a successful set_mode / set_quality / set_stall_deselect / set_conn_timeout changes exactly that setting in the snapshot, set_conn_timeout stores and echoes clamp(ms,1000,60000); get_status changes nothing and reports exactly the current snapshot; get_stats changes nothing and can only fail with -32603; '
               'lemma: get_status after a successful set_conn_timeout shows the clamped value. The socket entry point satisfies the same envelope contract and the same handler verdict for every request except subscribe / unsubscribe / get_subscription_count on a connection with a subscription context. '
-              'On the real DynamicConfig (shared atomics SEQUENTIALISED into plain cells): the timeout stored by new / from_cli / set_conn_timeout_ms is always clamp(ms,1000,60000), every snapshot shows 1000..60000, each setter is visible in the next snapshot and leaves the other settings alone; mode codec total and inverse.',
+              'On the real DynamicConfig (shared atomics SEQUENTIALISED into plain cells): the timeout stored by new / from_cli / set_conn_timeout_ms is always clamp(ms,1000,60000), every snapshot shows 1000..60000, each setter is visible in the next snapshot and leaves the other settings alone; mode codec total and inverse. Panic freedom of dispatch_inner / dispatch / dispatch_async / handle_method / parse_mode is claimed and proved, including the panic-capable arguments (indexing, slicing, unwrap) of the error-message expressions that rule R2 otherwise drops.',
               COMMON_NOTE + ' Additional rule R20 (string-literal match -> if-chain, arm order kept). NOT covered: concurrent setters/readers (atomics sequentialised), serde_json itself (parsing, typed accessors, serialisation, Response::to_json), Display of SchedulingMode, the subscription handlers, control_socket.rs line framing.',
               'deductive verification (Verus) of the extracted real functions over uninterpreted JSON/string stubs; atomics sequentialised', 'DESIGN.md 8 C18'),
     'C19': _t('Verus proves on the real analyze_ip_reload_text (string functions lines/trim/is_empty/IpAddr::from_str uninterpreted but deterministic): the reload is refused iff no line parses; the applied list is exactly the parsable lines in file order; '
@@ -103,7 +103,7 @@ TEXT = {
               'label format! = an uninterpreted function of host, port and address; HashSet<String>/HashSet<IpAddr> = ghost sets): the surviving links are exactly the links whose label is still listed, unchanged and in their old order, at the front of the list; '
               'the purge list is exactly the conn_ids of the unlisted links; their I/O handles are removed and their NAK-attribution records blanked, and nothing else is purged (survivors keep their I/O handle and records); '
               'the sticky routing choice is forgotten exactly when a link was removed; every appended link is for a listed address that had no link, and no address is used twice. On the real create_connections_from_ips / connect_uplink (socket calls stubbed): '
-              'links are created in list order, each with the label reloads match on, and existing I/O entries are untouched. On SequenceTracker::remove_connection: exactly the records of the removed link are purged.',
+              'links are created in list order, each with the label reloads match on, and existing I/O entries are untouched. On SequenceTracker::remove_connection: exactly the records of the removed link are purged. Every listed address is attempted: an error on one address does not stop the rest.',
               COMMON_NOTE + ' Residual, stated in the contract rather than assumed away: connect_uplink draws a random 64-bit conn_id without a collision check, so the "untouched" clauses hold unless a new link drew the id of an existing one. '
               'NOT covered: sync_readers (reader tasks follow the link list), socket identity of survivors (ConnIo is opaque), "applied while packets are in flight" (single call only).',
               'deductive verification (Verus) of the extracted real functions over uninterpreted string / set / socket stubs', 'DESIGN.md 8 C19'),
